@@ -9,11 +9,12 @@ func sliceOf(elem string) ast.Expr { return &ast.ArrayType{Elt: &ast.Ident{Name:
 // Val is the abstract value of an expression: its static type and the roots
 // of the objects its references may point into.
 type Val struct {
-	T   Type
-	Pts RootSet
+	T     Type
+	Pts   RootSet
+	NoRef bool // provably carries no reference (scalar, nil, reference-free value)
 }
 
-func scalar(t Type) Val { return Val{T: t, Pts: RootSet{}} }
+func scalar(t Type) Val { return Val{T: t, Pts: RootSet{}, NoRef: true} }
 
 // Var is a local variable (or parameter / named result).
 type Var struct {
@@ -39,12 +40,34 @@ type FT struct {
 	results  []*ast.Object // named results
 	resT     []Type
 	fd       *ast.FuncDecl
+	deferred []deferredCall
+	clauseV  map[ast.Node]*Var // type-switch clause variables
+}
+
+// deferredCall: a defer statement seen so far; its effects are emitted at
+// every function exit that follows it (before each IReturn, and at the end
+// of the body), not at the defer site.
+type deferredCall struct {
+	call *ast.CallExpr
+	may  bool
+}
+
+func (ft *FT) runDefers() {
+	for i := len(ft.deferred) - 1; i >= 0; i-- {
+		d := ft.deferred[i]
+		if d.may {
+			ft.nested(func() { ft.evalCall(d.call) })
+		} else {
+			ft.evalCall(d.call)
+		}
+	}
 }
 
 func newFT(pk *Pkg, name string) *FT {
 	return &FT{pk: pk, name: name, vars: map[*ast.Object]*Var{},
 		contains: map[string]map[string]RootSet{}, sites: map[ast.Node]int{},
-		hints: map[int]RootSet{}, isCall: map[int]bool{}, retSet: RootSet{}}
+		hints: map[int]RootSet{}, isCall: map[int]bool{}, retSet: RootSet{},
+		clauseV: map[ast.Node]*Var{}}
 }
 
 func (ft *FT) site(n ast.Node) int {
@@ -78,6 +101,45 @@ func (ft *FT) write(s RootSet, fld string) {
 	if len(s) > 0 {
 		ft.emit(Instr{Op: "write", Roots: s.list(), Fld: fld})
 	}
+}
+
+// FAIL CLOSED: an access through a reference whose points-to set is empty
+// (the translator lost track of it) is reported as an access to RUnknown,
+// which makes Effects.ok false.  Only values that provably carry no reference
+// (scalars, nil, reference-free arrays/structs) may have an empty set.
+func (ft *FT) readRef(s RootSet) {
+	if len(s) == 0 {
+		s = unknownSet.copy()
+	}
+	ft.read(s)
+}
+
+func (ft *FT) writeRef(s RootSet, fld string) {
+	if len(s) == 0 {
+		s = unknownSet.copy()
+	}
+	ft.write(s, fld)
+}
+
+// lostRef: v should carry a reference but its points-to set is empty.
+func lostRef(v Val) bool {
+	return len(v.Pts) == 0 && !v.NoRef && (v.T.E == nil || v.T.hasRef())
+}
+
+func (ft *FT) readVal(v Val) {
+	if lostRef(v) {
+		ft.read(unknownSet.copy())
+		return
+	}
+	ft.read(v.Pts)
+}
+
+func (ft *FT) writeVal(v Val, fld string) {
+	if lostRef(v) {
+		ft.write(unknownSet.copy(), fld)
+		return
+	}
+	ft.write(v.Pts, fld)
 }
 
 func (ft *FT) cont(r Root, fld string) RootSet {
@@ -137,7 +199,7 @@ func (ft *FT) closure(s RootSet) RootSet {
 
 // store: references v are stored into field fld of the objects in s.
 func (ft *FT) store(s RootSet, fld string, v RootSet) {
-	ft.write(s, fld)
+	ft.writeRef(s, fld)
 	for _, r := range s {
 		ft.addCont(r, fld, v)
 	}
